@@ -71,4 +71,8 @@ def run(ctx):
     rep.floor('PROV-CTX final sinks', n1, 5)
     rep.floor('sign table paths', n3, 6)
     rep.floor('integer-root sites', n4, 1)
+    # the rounding of the root is decided by the context's mode inside the table-checked rounding routines only: a root
+    # kernel that branches on the mode itself (e.g. to skip the sticky digit for some modes) is reported
+    nmd = TR.mode_dispatch(rep, F)
+    rep.floor('functions dispatching on the rounding mode', nmd, 3)
     rep.trust('num-integer Roots::sqrt returns the floor of the exact root (no remainder)')
